@@ -38,30 +38,32 @@ def check(run):
 
 
 def tests(R):
-    q = S + '.write'
-    g = R.cfg(q)
-    rd = ReachingDefs(g)
-    sa = ext_calls(R, g, {'socket.sendall', 'socket.send'})
-    need(len(sa) == 1, 'write(): sendall not found')
-    n, c = sa[0]
-    sec = set(w for (w, t) in lock_frames(R, g, n) if t == 'self._lock')
-    R.ob('C12.tests', 'sendall inside a section of the session lock', bool(sec), 'sendall outside `with self._lock`', func=q, node=c)
-    for prop in ('is_closed', 'is_closing'):
-        ts = [t for t in g.live_nodes() if t.kind == 'test' and U(t.ast) == 'self.websocket.' + prop]
-        # the fact must be established *inside* the critical section: on every path from the `with` to sendall
-        bad = []
-        for w in sec or [g.entry]:
-            for l in path_conditions(R, g, rd, w, n):
-                if not any((a, False) in l for a in ('self.websocket.state.%s' % prop[3:], 'self.websocket.' + prop)):
-                    bad.append(sorted(l))
-        ok = bool(sec) and not bad
-        R.ob('C12.tests', '%s tested under the lock on every path to sendall' % prop, ok,
-             'write() can reach sendall without testing %s inside the critical section (check-then-lock or a bypass): a send '
-             'that loses the race against close() is written after the Close frame' % prop, func=q,
-             node=(ts[0].ast if ts else c), construct='write %s test placement' % prop)
-    gok = True
-    R.ob('C12.guard', 'closing re-validated under the lock by write()', bool(sec), 'no critical section in write()', func=q, node=None,
-         construct='revalidation')
+    from .common import effective_write_sites
+    sites = effective_write_sites(R)
+    need(sites, 'no write to the session socket found')
+    secs = []
+    for (g, n, c, via) in sites:
+        rd = ReachingDefs(g)
+        q = g.ctx.func.qual
+        sec = set(w for (w, t) in lock_frames(R, g, n) if t == 'self._lock')
+        secs.append(bool(sec))
+        R.ob('C12.tests', 'socket write inside a section of the session lock (%s)' % q.rsplit('.', 1)[1], bool(sec),
+             'the socket write `%s` (reached via %s) is outside `with self._lock`' % (U(c), ' <- '.join(via)), func=q, node=c)
+        for prop in ('is_closed', 'is_closing'):
+            # the fact must be established *inside* the critical section: on every path from the `with` to the write
+            bad = []
+            for w in sec or [g.entry]:
+                for l in path_conditions(R, g, rd, w, n):
+                    if not any((a, False) in l for a in ('self.websocket.state.%s' % prop[3:], 'self.websocket.' + prop)):
+                        bad.append(sorted(x[0] for x in l if x[1])[:4])
+            ok = bool(sec) and not bad
+            R.ob('C12.tests', '%s tested under the lock on every path to the socket write (%s)' % (prop, q.rsplit('.', 1)[1]), ok,
+                 '%s() can write to the socket without testing %s inside the critical section (check-then-lock, a bypass '
+                 'parameter, or a send path that skips write()\'s checks): a send that loses the race against close() is '
+                 'written after the Close frame' % (q.rsplit('.', 1)[1], prop), func=q, node=c,
+                 construct='%s %s test placement' % (q, prop))
+    R.ob('C12.guard', 'closing re-validated under the lock by every socket write', all(secs), 'a socket write without a critical section',
+         func=S + '.write', node=None, construct='revalidation')
 
 
 def set_(R):
